@@ -4,6 +4,7 @@
 
 use vcore::{json, Run};
 
+mod cobcalc;
 mod orders;
 mod part1;
 mod sched_part;
@@ -16,6 +17,8 @@ fn main() {
     // ---- part 4 (run here so that its budget is not eaten by parts 2/3): part 1 again on the
     // second engine (yui-kh built with the cargo feature `old`: explicit cube) --------------------
     let old = run.run_subpart("c01old", "old-engine", run.budget_s() * 0.2);
+    // ---- part 5: the cobordism calculus (stacking) against a topological reference -------------------
+    let cc = cobcalc::cobcalc_part(&run);
     // ---- part 2: orders of the Bar-Natan machine (explicit-state) -------------------------------
     let o = orders::orders_part(&run);
     // ---- part 3: thread schedules of connect_edges / eliminate -----------------------------------
@@ -30,6 +33,7 @@ fn main() {
         "part1_inputs_x_configs": {"diagrams": run.get("diagrams"), "library_evaluations": part1},
         "part2_orders": o.json,
         "part3_schedules": s.json,
+        "part5_cobordism_calculus": cc,
         "part4_old_engine": {"evidence": "evidence/parts/C01.old-engine.json", "violations": old["violations"], "wall_s": old["wall_s"], "library_evaluations": old["coverage"]["evaluations"], "diagrams": old["coverage"]["distinct_nontrivial"], "caps_hit": old["coverage"]["caps_hit"]},
         "exhaustive": true,
     });
